@@ -44,8 +44,9 @@ Q = {
     "q0": None,
     "qe": [],
     "q1": [["a", [1]]],
-    "q2": [["note", ["x", "y"]], ["n", [1, True]], ["e", []]],
-    "q3": [["k", ["x", "y", "z"]], ["note", [1, True]], ["z", [2.5]], ["A", ["b", "a"]]],
+    "q2": [["note", ["x", "007"]], ["n", [1, True]], ["e", []]],
+    # values that only LOOK like numbers / booleans must come back as the same text ("007" is not 7)
+    "q3": [["k", ["x", "y", "z"]], ["note", [1, True]], ["z", [2.5]], ["A", ["b", "+5"]]],
     "q4": [["k", ["x", "y", "z"]], ["note", [1, True, 2.5]], ["z", ["10", "9", "1e3"]], ["A", ["b", "a", "B"]]],
 }
 
